@@ -151,7 +151,15 @@ def pack_field(f, ir, unit, params):
         if f.write_method.which_method == "alias":
             kind = "(alias %s)" % _names(f.write_method.alias)
         else:
-            kind = "(virt %s %s)" % (pack_expr(f.read_transform, params), _req(f.attribute, params))
+            value = pack_expr(f.read_transform, params)
+            req = _req(f.attribute, params)
+            # header_generator picks the *constant* virtual-field template when value and existence
+            # condition are compile-time constants; that template's Ok() is `return true` and never
+            # evaluates the validator
+            if (value.startswith("(fold") or value.startswith("(i ") or value.startswith("(b ")) and \
+                    (cond.startswith("(fold") or cond.startswith("(b ")):
+                req = "none"
+            kind = "(virt %s %s)" % (value, req)
     else:
         size_bits = None
         if f.type.has_field("size_in_bits"):
